@@ -13,5 +13,7 @@ mod uints;
 mod block;
 #[cfg(kani)]
 mod negotiate;
+// mod splice: bounded cross-check of the extending_splice contract (R21) - CBMC does not get past SSA conversion /
+// propositional reduction within 15 min even for dst <= 2 bytes (Splice/Drain drop glue); kept in src/splice.rs as a record
 // mod unquote: bounded harness for Unquote::to_cow vs the iterator (C17) - runs out of memory in CBMC even
 // for strings of <= 4 ASCII characters (measured: 415-513 s, then OOM); kept in src/unquote.rs as a record, not compiled
